@@ -172,3 +172,28 @@ fn d2_big_tail() {
         assert_eq!(got, ints.to_vec());
     }
 }
+
+#[test]
+fn d9_incompressible_hint_yes() {
+    // data_size = 250 (1 byte offsets) but the zstd output of random bytes is > 255 bytes
+    let (_d, p) = tmp("a.jbk");
+    let mut creator = jbk::creator::BasicCreator::new(&p, jbk::creator::ConcatMode::OneFile, VENDOR_ID, jbk::creator::Compression::zstd(), Arc::new(())).unwrap();
+    let mut store = Box::new(Store::new(false));
+    let mut x: u32 = 12345;
+    let content: Vec<u8> = (0..250).map(|_| { x = x.wrapping_mul(1664525).wrapping_add(1013904223); (x >> 24) as u8 }).collect();
+    let a = creator.add_content(Box::new(std::io::Cursor::new(content.clone())), jbk::creator::CompHint::Yes).unwrap();
+    store.add(b"x", 1, a);
+    creator.finalize(store, vec![]).unwrap();
+    let c = jbk::reader::Container::new(&p).unwrap();
+    let region = c.get_bytes(a).unwrap().and_then(|m| m.transpose()).expect("valid").unwrap();
+    assert_eq!(region.size().into_u64(), 250);
+    let (tx, rx) = std::sync::mpsc::channel();
+    std::thread::spawn(move || {
+        let mut v = vec![];
+        let r = region.stream().read_to_end(&mut v);
+        let _ = tx.send((r.is_ok(), v));
+    });
+    let (ok, v) = rx.recv_timeout(std::time::Duration::from_secs(10)).expect("read must terminate");
+    assert!(ok);
+    assert_eq!(v, content);
+}
